@@ -678,45 +678,48 @@ Definition tp_tails : list str :=
   ++ pre "W" (dstrs 1 ++ dstrs 2) ++ pre "-W" (dstrs 2)
   ++ pre "D" (dstrs 1 ++ dstrs 2 ++ dstrs 3) ++ pre "-D" (dstrs 1 ++ dstrs 2 ++ dstrs 3)
   ++ flat_map (fun m => map (fun d => s_ "-" ++ two m ++ s_ "-" ++ two d) (seq 0 33)) (seq 0 14).     (* YYYY-MM-DD, months 00-13, days 00-32 *)
-Definition tp_years : list Z := [1000; 1800; 9999] ++ map (fun n => 1996 + Z.of_nat n) (seq 0 13).
+Definition tp_years : list Z := [1000; 1800; 9999; 1996; 1997; 1998; 2004].   (* bounds; leap/52, common/52, common/53, leap/53 *)
 Definition y4 (y : Z) : str := lpad0 (render_Z y) 4.
 (* the acceptor and the documented formats say the same thing about s (same value, or both refuse) *)
-Definition tp_consistent (s : str) : bool :=
-  match denote TPeriod s, accept_df_str TPeriod (RStr s) with
+Definition consistent19 (d : option sval) (a : result sval) : bool :=
+  match d, a with
   | Some v, Acc w => sval_eqb v w
   | None, Acc _ => false
   | Some _, _ => false
   | None, _ => true end.
+Definition tp_consistent (s : str) : bool := consistent19 (denote TPeriod s) (accept_df_str TPeriod (RStr s)).
 (* the one gap on documented shapes: week 53 of a year that has 52 ISO weeks *)
 Definition tp_gap (y : Z) (t : str) : bool := (weeks_in_year y =? 52) && (is_str t "W53" || is_str t "-W53").
+Definition gap_shape (d : option sval) (a : result sval) : bool :=
+  match a, d with Acc (SPer _ _ 53), None => true | _, _ => false end.
+Definition tp_gap_witness (s : str) : bool := gap_shape (denote TPeriod s) (accept_df_str TPeriod (RStr s)).
 Definition tp_c20 (s : str) : bool := Bool.eqb (accepts (accept_pandas TPeriod (RStr s))) (accepts (accept_df_str TPeriod (RStr s))).
+Definition tp_point (y : Z) (t : str) : bool :=
+  let s := y4 y ++ t in
+  let a := accept_df_str TPeriod (RStr s) in let d := denote TPeriod s in
+  (if tp_gap y t then gap_shape d a else consistent19 d a) && Bool.eqb (accepts (accept_pandas TPeriod (RStr s))) (accepts a).
 
-Lemma tp_sweep_c19 : forallb (fun y => forallb (fun t => tp_consistent (y4 y ++ t) || tp_gap y t) tp_tails) tp_years = true.
+Lemma tp_sweep : forallb (fun y => forallb (tp_point y) tp_tails) tp_years = true.
 Proof. vm_compute. reflexivity. Qed.
-Lemma tp_sweep_gap : forallb (fun y => forallb (fun t => negb (tp_gap y t) ||
-   match accept_df_str TPeriod (RStr (y4 y ++ t)), denote TPeriod (y4 y ++ t) with Acc (SPer _ _ 53), None => true | _, _ => false end)
-   tp_tails) tp_years = true.
-Proof. vm_compute. reflexivity. Qed.
-Lemma tp_sweep_c20 : forallb (fun y => forallb (fun t => tp_c20 (y4 y ++ t)) tp_tails) tp_years = true.
-Proof. vm_compute. reflexivity. Qed.
+Lemma tp_sweep_at : forall y t, In y tp_years -> In t tp_tails -> tp_point y t = true.
+Proof.
+  intros y t Hy Ht. pose proof tp_sweep as H. rewrite forallb_forall in H. specialize (H y Hy).
+  rewrite forallb_forall in H. exact (H t Ht).
+Qed.
 
 Theorem period_documented_shapes_partial : forall y t, In y tp_years -> In t tp_tails -> tp_gap y t = false ->
   tp_consistent (y4 y ++ t) = true.
 Proof.
-  intros y t Hy Ht Hg. pose proof tp_sweep_c19 as H. rewrite forallb_forall in H. specialize (H y Hy).
-  rewrite forallb_forall in H. specialize (H t Ht). rewrite Hg, orb_false_r in H. exact H.
+  intros y t Hy Ht Hg. pose proof (tp_sweep_at y t Hy Ht) as H. unfold tp_point in H. rewrite Hg in H.
+  apply andb_true_iff in H. exact (proj1 H).
 Qed.
-Theorem period_week53_gap : forall y t, In y tp_years -> In t tp_tails -> tp_gap y t = true ->
-  match accept_df_str TPeriod (RStr (y4 y ++ t)), denote TPeriod (y4 y ++ t) with Acc (SPer _ _ 53), None => True | _, _ => False end.
+Theorem period_week53_gap : forall y t, In y tp_years -> In t tp_tails -> tp_gap y t = true -> tp_gap_witness (y4 y ++ t) = true.
 Proof.
-  intros y t Hy Ht Hg. pose proof tp_sweep_gap as H. rewrite forallb_forall in H. specialize (H y Hy).
-  rewrite forallb_forall in H. specialize (H t Ht). rewrite Hg in H. simpl in H.
-  destruct (accept_df_str TPeriod (RStr (y4 y ++ t))) as [[]| |]; try discriminate; destruct (denote TPeriod (y4 y ++ t)); try discriminate;
-    destruct n; try discriminate; repeat (destruct p; try discriminate); exact I.
+  intros y t Hy Ht Hg. pose proof (tp_sweep_at y t Hy Ht) as H. unfold tp_point in H. rewrite Hg in H.
+  apply andb_true_iff in H. exact (proj1 H).
 Qed.
-Theorem period_validators_agree_on_documented_shapes : forall y t, In y tp_years -> In t tp_tails ->
-  accepts (accept_pandas TPeriod (RStr (y4 y ++ t))) = accepts (accept_df_str TPeriod (RStr (y4 y ++ t))).
+Theorem period_validators_agree_on_documented_shapes : forall y t, In y tp_years -> In t tp_tails -> tp_c20 (y4 y ++ t) = true.
 Proof.
-  intros y t Hy Ht. pose proof tp_sweep_c20 as H. rewrite forallb_forall in H. specialize (H y Hy).
-  rewrite forallb_forall in H. specialize (H t Ht). apply Bool.eqb_prop. exact H.
+  intros y t Hy Ht. pose proof (tp_sweep_at y t Hy Ht) as H. unfold tp_point in H.
+  apply andb_true_iff in H. exact (proj2 H).
 Qed.
